@@ -72,6 +72,7 @@ class Emitter:
         self.renames = self.cfg.get("rename", {})
         self.const_types = {}  # const_globals name -> C type
         self.truncated = []  # units cut at a stop_at_call statement
+        self.hooked = []  # callees whose calls are emitted as VF_CALL_<cname>(..) (config call_hooks)
         self.lib = libmap
         self.dropped = []
         self.callees = {}  # cname -> description
@@ -498,6 +499,11 @@ class Emitter:
         dct = self.try_ctype(n)
         if len(path) == 1 and dct and dct.rstrip("*").startswith("struct vf_"):
             path = [dct.rstrip("*")[len("struct "):]]  # class deriving from a modelled std container: base = the model
+        elif self.cfg.get("template_base_tags") and dct and dct.rstrip("*").startswith("struct " + path[-1] + "_"):
+            # (opt-in, config template_base_tags: specs written before this rule name the base member without arguments)
+            # the last base is a template instantiation that clang prints without its arguments in the path: the
+            # destination type of the cast names it completely (DelayedSimcallObserver -> DelayedSimcallObserver_bool)
+            path[-1] = dct.rstrip("*")[len("struct "):]
         e = self.paren(self.E(inner))
         cur = dtag
         acc = (e + "->") if is_ptr else (e + ".")
@@ -841,13 +847,25 @@ class Emitter:
                         self.fn_cname(self.tm.struct_tag(cands[0]["name"].split("::")[-2]), name, fnt)
             params = self.fn_params_from(fnt)
             a = self.call_args(args, params)
-            ret, isref = self.ret_ctype_from(fnt)
+            if (fnt or "").startswith("typename ") and n.get("valueCategory") == "prvalue":
+                # instantiated template whose result is spelled as a dependent alias (typename std::invoke_result_t<F>):
+                # the call expression carries the desugared type
+                ret, isref = self.ctype(n), False
+            else:
+                ret, isref = self.ret_ctype_from(fnt)
             pc = self.param_ctypes_from(fnt)
+            # free function templates: config template_methods {"<name>": "arg<i>" | "ret"} gives each instantiation its
+            # own C name, after the C type of that parameter / of the result (same rule as for member templates), e.g.
+            # simcall_answered(closure returning void) -> simcall_answered__void
+            tsel = self.cfg.get("template_methods", {}).get(name)
+            if tsel is not None and cname == self.op_name(name):
+                tct = ret if tsel == "ret" else pc[int(tsel[3:])]
+                cname += "__" + re.sub(r"_+", "_", ident(tct.replace("*", " ptr"))).strip("_")
             variadic = any(p.kind == "named" and p.name == "..." for p in (params or []))
             self.note_proto(cname, ret, pc, fnt, variadic)
             self.callees.setdefault(cname, "%s : %s" % (name, fnt))
             self.callflag = True
-            s = "%s(%s)" % (cname, ", ".join(a))
+            s = "%s(%s)" % (self.call_target(cname), ", ".join(a))
             return "(*%s)" % s if isref else s
         # call through function pointer / std::function handled in libmap
         r = self.lib.indirect_call(self, n, callee, args) if self.lib else None
@@ -928,8 +946,18 @@ class Emitter:
         self.note_proto(cname, ret, pc, "%s::%s (signature inferred at call site)" % (tag, name))
         self.callees.setdefault(cname, "%s::%s" % (tag, name))
         self.callflag = True
-        s = "%s(%s)" % (cname, ", ".join(([obj] if obj is not None else []) + avs))
+        s = "%s(%s)" % (self.call_target(cname), ", ".join(([obj] if obj is not None else []) + avs))
         return "(*%s)" % s if isref else s
+
+    def call_target(self, cname):
+        """config call_hooks [cname, ...]: every call of such a function that a unit makes is emitted as
+        VF_CALL_<cname>(args), a macro that defaults to the plain call (gen.c) and that a spec may define as a ghost
+        wrapper (log the call, then make it): call sequences become observable without touching callee or contract."""
+        if cname in self.cfg.get("call_hooks", []):
+            if cname not in self.hooked:
+                self.hooked.append(cname)
+            return "VF_CALL_" + cname
+        return cname
 
     def addr_of_expr_string(self, e, node):
         if e.startswith("(*") and e.endswith(")") and self.balanced(e[2:-1]):
